@@ -225,6 +225,11 @@ impl Lex {
                         if c == '.' {
                             has_dot = true;
                         }
+                        if radix.is_some() && (c == '-' || c == '+') {
+                            // a sign belongs in front of the 0x / 0b prefix, not behind it;
+                            // poison the digits so that parsing rejects them
+                            self.tmp.push(' ');
+                        }
                         if c != '_' {
                             self.tmp.push(c);
                         }
